@@ -323,6 +323,12 @@ def main(argv=None):
             with open(os.path.join(HOME, "evidence", f"{pid}.json"), "w") as f:
                 json.dump(ev, f, indent=1, sort_keys=False)
                 f.write("\n")
+            # a per-tier copy, so that a later quick run does not erase what the last thorough run observed
+            tdir = os.path.join(HOME, "evidence_by_tier", args.tier)
+            os.makedirs(tdir, exist_ok=True)
+            with open(os.path.join(tdir, f"{pid}.json"), "w") as f:
+                json.dump(ev, f, indent=1, sort_keys=False)
+                f.write("\n")
 
         print(f"{pid} tier={args.tier} seed={args.seed} evaluations={agg['evaluations']} distinct={distinct} "
               f"known={total_known} unlisted={total_unlisted} wall={wall}s workers={dict(agg['worker_status'])}")
